@@ -56,6 +56,8 @@ type thriftVec struct {
 	CompAsIs     []tItem  `json:"compasis"`
 	CompLong     []tItem  `json:"complong"`
 	CompLongAsIs []tItem  `json:"complongasis"`
+	BinAsIsW     []tItem  `json:"binasisw"`
+	CompAsIsW    []tItem  `json:"compasisw"`
 }
 
 var sub1Layout = []tField{{ID: 1, Ty: "I64"}, {ID: 2, Ty: "BOOL"}}
@@ -85,6 +87,23 @@ func init() {
 }
 
 const tMaxTable = 6 + 4*9
+
+// enum values (option "enum": an integer field of any width, an i32 on the wire): within the field's width and int32
+var tEnum = []int64{1, -1, 127, -128, 2, 64, 300, -129, 32767, -32768, 1 << 20, math.MaxInt32, math.MinInt32}
+
+func (l tlift) enumValue(width string, id int) int64 {
+	if id == 0 {
+		return 0
+	}
+	n := map[string]int{"I8": 6, "I16": 10, "I32": len(tEnum), "I64": len(tEnum)}[width]
+	return tEnum[l.idx(id, n)]
+}
+
+func (l tlift) enumGo(width string, id int) reflect.Value {
+	v := reflect.New(tScalarType(width)).Elem()
+	v.SetInt(l.enumValue(width, id))
+	return v
+}
 
 var tDbl = []float64{1.5, -2, math.Inf(1), math.SmallestNonzeroFloat64, 1e300}
 var tStr = []string{"a", "héllo", strings.Repeat("x", 200), "\x00\xff", "k", strings.Repeat("y", 127), strings.Repeat("z", 128)}
@@ -158,6 +177,10 @@ func (l tlift) expand(items []tItem) []byte {
 			b = binary.BigEndian.AppendUint32(b, uint32(l.scalar("I32", it.V).(int32)))
 		case "be64":
 			b = binary.BigEndian.AppendUint64(b, uint64(l.scalar("I64", it.V).(int64)))
+		case "enum32":
+			b = binary.BigEndian.AppendUint32(b, uint32(int32(l.enumValue(it.T, it.V))))
+		case "enumzz":
+			b = binary.AppendVarint(b, l.enumValue(it.T, it.V))
 		case "zz":
 			var v int64
 			switch x := l.scalar(it.T, it.V).(type) {
@@ -228,6 +251,8 @@ func tFieldType(f tField) reflect.Type {
 		t = reflect.MapOf(tScalarType(f.E), reflect.TypeOf(struct{}{}))
 	case "MAP":
 		t = reflect.MapOf(tScalarType(f.K), tScalarType(f.E))
+	case "ENUM":
+		t = tScalarType(f.E)
 	default:
 		t = tScalarType(f.Ty)
 	}
@@ -258,6 +283,9 @@ func tStructType(layout []tField) reflect.Type {
 		tag := strconv.Itoa(f.ID)
 		if f.Req {
 			tag += ",required"
+		}
+		if f.Ty == "ENUM" {
+			tag += ",enum"
 		}
 		fields[i] = reflect.StructField{Name: "F" + strconv.Itoa(i+1), Type: tFieldType(f),
 			Tag: reflect.StructTag(`thrift:"` + tag + `"`)}
@@ -319,6 +347,8 @@ func (l tlift) fieldValue(f tField, v tVal) reflect.Value {
 		for i := 0; i+1 < len(v.Xs); i += 2 {
 			x.SetMapIndex(l.elemValue(f.K, v.Xs[i].tVal), l.elemValue(f.E, v.Xs[i+1].tVal))
 		}
+	case "ENUM":
+		x = l.enumGo(f.E, v.V)
 	default:
 		x = l.elemValue(f.Ty, v)
 	}
